@@ -311,7 +311,9 @@ theorem C10_sparse_dense_agree {C U F : CovMat K} (hC : C.WF)
     the whole vector, the counting pass, and per block the `width == 0` scaling or the `perm`/`invp`/`T` gather,
     the per-column forward substitution with the upper factor and the scatter that drops exact zeros — fill-in
     included).  `cov` is any object built by `add_block` (`Built Cs tail`: any number of blocks, dims, widths),
-    `mat` a completely built sparse matrix with `rows = Σ dims = |rhs|` and no repeated column index in a row.
+    `mat` a completely built sparse matrix with `rows = Σ dims = |rhs|`; a column index may be REPEATED inside a row
+    (no `nodupRows` hypothesis): the coefficients stored with it add up — `denseRow` is that sum, the `width == 0`
+    branch keeps every entry and the gather loop is `T(i, perm[c]) += *b++` (since /repo 6d0f7107).
     (1) `run` throws iff `BlockDiagonal::cholDec` rejects some block, and then `NonPositiveDefinite`;
     (2) otherwise there are factors `F_k` (one per block, `bdCholBlock tol C_k = ok F_k`, positive diagonal) with
         `L̃ L̃ᵀ = C`,  `L̃ · dense(sm) = dense(mat)`,  `L̃ · pr = rhs`,   `L̃ = blockdiag(F_kᵀ)`,
@@ -325,8 +327,7 @@ theorem C10_homogenization_run
     (tol : K) (htol : 0 < tol) (mat : SMat K) (cov : BlockDiag K) (rhs : Array K)
     (Cs : List (CovMat K)) (tail : List K)
     (hcov : cov.Built Cs tail) (hwf : ∀ C ∈ Cs, C.WF)
-    (hmat : mat.WF) (hrows : mat.rows = (Cs.map (·.dim)).sum) (hrhs : rhs.size = mat.rows)
-    (hnodup : mat.nodupRows = true) :
+    (hmat : mat.WF) (hrows : mat.rows = (Cs.map (·.dim)).sum) (hrhs : rhs.size = mat.rows) :
     letI := fieldScalar K SqrtFn.sq
     letI : Inhabited K := ⟨0⟩
     ((∃ e, Hom.run tol mat cov rhs = .error e) ↔ (bdCholDec tol Cs).1 ≠ 0) ∧
@@ -346,12 +347,19 @@ theorem C10_homogenization_run
           (∀ i c, 1 ≤ i → i ≤ (Cs[k]'hk).dim →
             ∑ j ∈ Finset.Icc 1 i, (Fs[k]'hk').get i j * denseRow (out.sm.rowEntries (rowsBefore Cs k + j)) c
               = denseRow (mat.rowEntries (rowsBefore Cs k + i)) c)) :=
-  Hom.run_spec hsq tol htol mat cov rhs Cs tail hcov hwf hmat hrows hrhs hnodup
+  Hom.run_spec hsq tol htol mat cov rhs Cs tail hcov hwf hmat hrows hrhs
 
 /-- non-vacuity of `C10_homogenization_run`: an uncorrelated block `[9]` and a correlated block `[[4,2],[2,5]]`
     built by `init`/`add_block`, a 3×2 sparse matrix with unsorted rows, `rhs = (1,2,3)`, over ℝ — accepted -/
 example : ∃ out, (letI := fieldScalar ℝ Real.sqrt; Hom.run (1 / 100 : ℝ) runExMat runExCov #[1, 2, 3]) = .ok out :=
   runEx_accepted
+
+/-- … and an input the theorem covers only since the no-repeat hypothesis is gone: the same blocks, but row 2 (first
+    row of the CORRELATED block) stores column 1 twice (`2` and `1`: dense entry `3`); every hypothesis of
+    `C10_homogenization_run` holds (`runExRep_accepted` applies `Hom.run_spec` to it), `nodupRows` is false, and the run is accepted -/
+example : (runExMatRep.nodupRows = false) ∧
+    ∃ out, (letI := fieldScalar ℝ Real.sqrt; Hom.run (1 / 100 : ℝ) runExMatRep runExCov #[1, 2, 3]) = .ok out :=
+  ⟨runExMatRep_repeats, runExRep_accepted⟩
 
 end chol
 
